@@ -312,22 +312,27 @@ Qed.
 (* The code since fix fe4c1ff (fx = true): RemoveValidator and
    RemoveWithdrawRecords are undone exactly as well.                        *)
 
-Definition remove_ok (v : vside) (a : N) : Prop :=
+Definition remove_ok (fx : fixes) (v : vside) (a : N) : Prop :=
   match find (vals v) a with
-  | Some x => v_addr x = a /\ mem (vindex v) a = true /\ stat_ok (stat v) /\ covers (stat v) x
+  | Some x => (f_remove fx = true /\ v_deleted x = true) \/     (* refused since fix 464c034 *)
+              (v_addr x = a /\ mem (vindex v) a = true /\ (f_remove fx = true -> asc (vindex v)) /\
+               stat_ok (stat v) /\ covers (stat v) x)
   | None => True
   end.
 
 Lemma op_remove_validator_fixed : forall fx v a,
-  f_journal fx = true -> remove_ok v a -> vext fx v (fst (remove_validator fx v a)).
+  f_journal fx = true -> remove_ok fx v a -> vext fx v (fst (remove_validator fx v a)).
 Proof.
   intros fx v a Hfx H. unfold remove_validator, remove_ok in *. rewrite Hfx.
   destruct (find (vals v) a) as [x|] eqn:Hf; [|cbn; apply vext_refl].
-  destruct H as (Ha & Hi & Hs & Hc). cbn [fst].
-  destruct v as [va vt vd vi si ss sq st sm q j]. cbn in Hf, Hi, Hs, Hc.
+  destruct H as [(Hr & Hd)|(Ha & Hi & Hasc & Hs & Hc)].
+  { rewrite Hr, Hd. cbn. apply vext_refl. }
+  destruct (f_remove fx && v_deleted x) eqn:Hrd; [cbn; apply vext_refl|]. cbn [fst].
+  destruct v as [va vt vd vi si ss sq st sm q j]. cbn in Hf, Hi, Hs, Hc, Hasc.
   assert (Hset : set (set va a (set_v_deleted true x)) (v_addr x) x = va).
   { rewrite Ha, set_set. now apply set_same_id. }
-  assert (Hidx : add vi (v_addr x) = vi) by (rewrite Ha; now apply add_mem_id).
+  assert (Hidx : add (if f_remove fx then rem vi a else vi) (v_addr x) = vi).
+  { rewrite Ha. destruct (f_remove fx); [apply add_rem_asc; auto | now apply add_mem_id]. }
   eapply vext_one with (e := EValDelete a x); [reflexivity | cbn; rewrite Hfx; reflexivity |].
   unfold veq; cbn. rewrite Hset, Hidx, d_dec_inc, journal_eta.
   rewrite (stat_add_sub x _ Hs Hc). repeat split; reflexivity.
@@ -522,22 +527,22 @@ Proof.
   destruct (find va x); unfold veq; cbn; intuition.
 Qed.
 
-Lemma v_flush_one_veq : forall d x b1 b2, veq b1 b2 -> veq (v_flush_one d b1 x) (v_flush_one d b2 x).
+Lemma v_flush_one_veq : forall fx d x b1 b2, veq b1 b2 -> veq (v_flush_one fx d b1 x) (v_flush_one fx d b2 x).
 Proof.
-  intros d x b1 b2 Hb. destruct (veq_destruct _ _ Hb) as (m & ->).
+  intros fx d x b1 b2 Hb. destruct (veq_destruct _ _ Hb) as (m & ->).
   destruct b1 as [va vt vd vi si ss sq st sm q j]; unfold v_flush_one; cbn.
   destruct (find va x) as [y|]; [|unfold veq; cbn; intuition].
-  destruct (v_deleted y || d && is_invalid y); unfold veq; cbn; intuition.
+  destruct (v_deleted y || d && is_invalid y); [destruct (f_remove fx && v_deleted y)|]; unfold veq; cbn; intuition.
 Qed.
 
-Lemma v_intermediate_root_veq : forall d v1 v2, veq v1 v2 -> veq (v_intermediate_root d v1) (v_intermediate_root d v2).
+Lemma v_intermediate_root_veq : forall fx d v1 v2, veq v1 v2 -> veq (v_intermediate_root fx d v1) (v_intermediate_root fx d v2).
 Proof.
-  intros d v1 v2 H. unfold v_intermediate_root.
+  intros fx d v1 v2 H. unfold v_intermediate_root.
   pose proof (v_finalise_veq _ _ H) as Hf.
   assert (Hd : vdirty (v_finalise v1) = vdirty (v_finalise v2)) by (unfold veq in Hf; tauto). rewrite Hd.
-  assert (Hg : veq (fold_left (v_flush_one d) (vdirty (v_finalise v2)) (v_finalise v1))
-                   (fold_left (v_flush_one d) (vdirty (v_finalise v2)) (v_finalise v2)))
+  assert (Hg : veq (fold_left (v_flush_one fx d) (vdirty (v_finalise v2)) (v_finalise v1))
+                   (fold_left (v_flush_one fx d) (vdirty (v_finalise v2)) (v_finalise v2)))
     by (apply fold_veq; auto using v_flush_one_veq).
   destruct (veq_destruct _ _ Hg) as (m & ->).
-  destruct (fold_left (v_flush_one d) (vdirty (v_finalise v2)) (v_finalise v1)); unfold veq; cbn; intuition.
+  destruct (fold_left (v_flush_one fx d) (vdirty (v_finalise v2)) (v_finalise v1)); unfold veq; cbn; intuition.
 Qed.
